@@ -55,7 +55,6 @@ def mv(it, m: Mat, x):
     if m.transposed_of is not None:
         return mtv(it, m.transposed_of, x)
     xv = _vec_of(x)
-    S = it.path.ghost.get("__matsort__") or mat_id(it, m).sort()
     f = _fn(it, "mv", mat_id(it, m).sort(), _RA, z3.IntSort(), z3.RealSort())
     A = _real_array(xv)
     M = mat_id(it, m)
